@@ -270,6 +270,71 @@ def run_isar_stream(chk, workdir, n_schemas, c_safe):
             chk.correspondence_mismatch('Expr.evalText (calc) = value computed by prophyc.calc', icase, got_calc, model)
 
 
+HOST_TEXTS = ['12', '0x10', '7/2', '(9-2)/2+5', '2*(3+4)', '(0-7)/2+5', '10+(1-8)/2', '010', '0010+1']
+
+
+def classify_host_text(case, detail):
+    """known finding D63: isar expression text is pasted into the generated Python / C++; a decimal literal with a leading zero
+    (calc: decimal; C++: octal; Python 3: a syntax error) and `/` with a negative operand (calc and Python floor, C++ truncates)
+    denote different integers there"""
+    import re
+    text = case.get('expression', '')
+    if re.search(r'(?<![\w.])0\d', text):
+        return 'D63'
+    m = re.search(r'\(([^()]*)\)\s*/', text)
+    if m and '-' in m.group(1):
+        return 'D63'
+    return None
+
+
+def run_isar_host_text(chk, workdir):
+    """isar expression text as a constant and an array size: prophyc's own value (layout), the Python module and the C++ full
+    header (compiled and run) must hold one integer"""
+    import prophyc
+    import prophyc.model as M
+    for i, text in enumerate(HOST_TEXTS):
+        base = 'h%d' % i
+        src = os.path.join(workdir, base + '.xml')
+        with open(src, 'w') as f:
+            f.write('<dom><constant name="KH" value="%s"/><struct name="SH"><member name="a" type="u8"><dimension size="%s"/></member>'
+                    '<member name="b" type="u8"><dimension size="KH"/></member></struct></dom>' % (text, text))
+        icase = {'syntax': 'isar-host-text', 'expression': text}
+        chk.count(('isar-host-text', text), True)
+        chk.bump('kind:isar-host-text')
+        try:
+            res, _ = py_impl.run_prophyc(['--isar', '--python_out', workdir, '--cpp_full_out', workdir, src])
+        except prophyc.ProphycError:
+            chk.bump('isar-host-text-rejected')
+            continue
+        nodes = res[base]
+        seen = {'calc:constant': M._collect_constants(nodes).get('KH')}
+        for n in nodes:
+            if isinstance(n, M.Struct):
+                seen['calc:size'] = n.members[0].numeric_size
+                seen['calc:struct-size'] = n.byte_size // 2
+        try:
+            mod = py_impl.import_file(os.path.join(workdir, base + '.py'))
+            seen['python:constant'] = mod.KH
+            seen['python:size'] = len(mod.SH().a)
+        except Exception as ex:  # noqa
+            seen['python:constant'] = '%s: %s' % (type(ex).__name__, str(ex)[:80])
+        prog = os.path.join(workdir, base + '_main.cpp')
+        with open(prog, 'w') as f:
+            f.write('#include <stdio.h>\n#include "%s.ppf.hpp"\nint main() { prophy::generated::SH x; '
+                    'printf("%%lld %%zu %%zu\\n", (long long)prophy::generated::KH, x.a.size(), x.get_byte_size() / 2); }\n' % base)
+        exe = os.path.join(workdir, base + '_main')
+        p = subprocess.run(['g++', '-std=c++11', '-I' + os.path.join(REPO, 'prophy_cpp', 'include'), '-I' + workdir, prog,
+                            os.path.join(workdir, base + '.ppf.cpp'), '-o', exe], stdout=subprocess.PIPE, stderr=subprocess.STDOUT, timeout=300)
+        if p.returncode != 0:
+            seen['c++:constant'] = 'does not compile: ' + p.stdout.decode(errors='replace')[:120]
+        else:
+            out = subprocess.run([exe], stdout=subprocess.PIPE, timeout=60).stdout.decode().split()
+            seen['c++:constant'], seen['c++:size'], seen['c++:byte-size'] = int(out[0]), int(out[1]), int(out[2])
+        if len(set(map(str, seen.values()))) != 1:
+            chk.property_violation(icase, {'what': 'one isar expression text denotes different integers in prophyc and its back-ends', 'values': seen},
+                                   classify_host_text)
+
+
 def isar_expand(text):
     import prophyc.parsers.isar as I
     return I.expand_operators(text)
@@ -346,6 +411,7 @@ def run_c14(tier):
                 chk.correspondence_mismatch('Expr.evalText = value computed by the prophy parser', icase, got_n, model)
         run_isar_stream(chk, workdir, chk.scale(40, 400), c_safe=True)
         run_isar_stream(chk, workdir, chk.scale(15, 100), c_safe=False)
+        run_isar_host_text(chk, workdir)
     finally:
         shutil.rmtree(workdir, ignore_errors=True)
     return chk.finish()
